@@ -14,6 +14,8 @@ from vlib import cz, clist, cbool
 
 LEVEL = "proof"
 ERRNOS = [errno.ECONNREFUSED, errno.EHOSTUNREACH, errno.ENETDOWN, errno.ETIMEDOUT]
+# socket errors that are NOT in _serviceOneTxPkt's transient list: they propagate out of the service call
+FATALS = [errno.EMSGSIZE, errno.EPERM, errno.EINVAL, errno.EACCES]
 
 
 class Handler(object):
@@ -34,6 +36,9 @@ class Handler(object):
 
     def send(self, data, ha):
         fail = self.oracle.pop(0) if self.oracle else False
+        if fail == 2:
+            self.k += 1
+            raise socket.error(FATALS[self.k % len(FATALS)], "non-transient")
         if fail:
             self.k += 1
             self.failed.append(ha)
@@ -65,6 +70,29 @@ def dest_of(a):
 
 
 BLOCKED = [None]
+XLOG = []   # one record per extended service call of the last run_impl
+
+
+def xprop_holds(ops):
+    """executable statement for histories with non-transient errors, on the implementation alone: a service call
+    that raises loses exactly the packet whose send raised; everything else is sent or still queued, every
+    destination's packets in queue order; a call that does not raise loses nothing"""
+    del XLOG[:]
+    run_impl(ops)
+    for k, r in enumerate(XLOG):
+        want_gone = 1 if r["raised"] else 0
+        if len(r["gone"]) != want_gone or sorted(r["sent"] + r["after"] + r["gone"]) != sorted(r["before"]):
+            return "service call %d (raised=%r): queue %r -> sent %r + queue %r: lost %r" % (
+                k, r["raised"], r["before"], r["sent"], r["after"], r["gone"])
+        rest = list(r["before"])
+        for x in r["gone"]:
+            rest.remove(x)   # the raising packet is the first pending one to its destination (theorem), so
+                             # removing its first occurrence is right for the per-destination comparison
+        for d in set(x[1] for x in rest):
+            if [x for x in r["sent"] + r["after"] if x[1] == d] != [x for x in rest if x[1] == d]:
+                return "service call %d (raised=%r): order to destination %r broken: queue %r -> sent %r + queue %r" % (
+                    k, r["raised"], d, r["before"], r["sent"], r["after"])
+    return None
 
 
 def run_impl(ops):
@@ -83,6 +111,29 @@ def run_impl(ops):
             else:
                 stack.serviceTxPktsOnce()
             h.oracle = []
+        elif op[0] in ("svcx", "oncex"):
+            # outcomes 0 sent / 1 transient / 2 non-transient (the service call raises)
+            h.oracle = list(op[1]) if op[0] == "svcx" else [op[1]]
+            before = [(p.i, dest_of(ha)) for p, ha in stack.txPkts]
+            nsent = len(h.sent)
+            try:
+                if op[0] == "svcx":
+                    stack.serviceAllTx() if op[2] else stack.serviceTxPkts()
+                else:
+                    stack.serviceAllTxOnce() if op[2] else stack.serviceTxPktsOnce()
+                raised = False
+            except socket.error as ex:
+                raised = True
+                if ex.args[0] not in FATALS:
+                    raise
+            h.oracle = []
+            after = [(p.i, dest_of(ha)) for p, ha in stack.txPkts]
+            sent = [(int(d), dest_of(ha)) for d, ha in h.sent[nsent:]]
+            gone = list(before)
+            for x in sent + after:
+                if x in gone:
+                    gone.remove(x)
+            XLOG.append({"before": before, "after": after, "sent": sent, "raised": raised, "gone": gone})
         else:
             h.oracle = list(op[1])
             h.failed = []
@@ -124,6 +175,21 @@ def c_ops(ops):
     return clist(out, "op")
 
 
+OUTC = {0: "OSent", 1: "OTrans", 2: "OFatal"}
+
+
+def c_opsx(ops):
+    out = []
+    for op in ops:
+        if op[0] == "enq":
+            out.append("XEnq (%s, %s)" % (cz(op[1]), cz(op[2])))
+        elif op[0] == "oncex":
+            out.append("XOnce %s" % OUTC[op[1]])
+        else:
+            out.append("XService %s" % clist([OUTC[b] for b in op[1]], "outcome"))
+    return clist(out, "opx")
+
+
 def c_pkts(ps):
     return clist(["(%s, %s)" % (cz(a), cz(b)) for a, b in ps], "(Z*Z)")
 
@@ -147,7 +213,8 @@ def run(ctx):
                 "GramStack with a handler double and on the Coq model; non-trivial = at least one failing "
                 "send and >= 2 packets; distinct by full history")
     ctx.assumptions = [
-        "handler double: send() either raises socket.error with a transient errno or accepts the whole datagram",
+        "handler double: send() raises socket.error with a transient errno, raises socket.error with a "
+        "non-transient errno (EMSGSIZE, EPERM, EINVAL, EACCES: the service call raises), or accepts the whole datagram",
         "packets are identified by their packed payload; Packet.pack and console output are not modelled",
     ]
     res = ctx.coq_build("C35/Props.v")
@@ -197,7 +264,56 @@ def run(ctx):
                         rnd.append([("enq", i + 1, d) for i, d in enumerate(dests)] +
                                    [("once", f, allx) for f in pat] + [("svc", [])])
 
+    # 4. histories with NON-transient send errors (outcome 2: the service call raises): exhaustive for up to 4
+    #    packets over up to 3 destinations x every outcome list with at least one non-transient error, followed by
+    #    a second pass with a derived outcome list and a clean pass; plus random long histories
+    xhist = []
+    for n in range(1, 5):
+        for dests in itertools.product(range(3), repeat=n):
+            seen = []
+            for d in dests:
+                if d not in seen:
+                    seen.append(d)
+            if seen != list(range(len(seen))):
+                continue
+            enq = [("enq", i + 1, 10 * (d + 1)) for i, d in enumerate(dests)]
+            for orc in itertools.product((0, 1, 2), repeat=n):
+                if 2 not in orc:
+                    continue
+                k = sum(orc) + n
+                xhist.append(enq + [("svcx", list(orc), bool(k & 1)), ("enq", n + 1, 10),
+                                    ("svcx", [(k >> j) % 3 for j in range(3)], False), ("svcx", [], False)])
+    for _ in range(ctx.n(250, 2500)):
+        ops, pid = [], 0
+        for _ in range(ctx.rng.randint(3, 22)):
+            x = ctx.rng.random()
+            if x < 0.5:
+                pid += 1
+                ops.append(("enq", pid, 10 * ctx.rng.randint(1, 4)))
+            elif x < 0.65:
+                ops.append(("oncex", ctx.rng.choice((0, 0, 1, 2)), ctx.rng.random() < 0.5))
+            else:
+                ops.append(("svcx", [ctx.rng.choice((0, 0, 0, 1, 1, 2)) for _ in range(ctx.rng.randint(0, 7))],
+                            ctx.rng.random() < 0.3))
+        ops.append(("svcx", [], False))
+        xhist.append(ops)
+
     cases, metas = [], []
+    xmetas = []
+
+    def addx(ops):
+        del XLOG[:]
+        log, q = run_impl(ops)
+        dropped = [x for r in XLOG for x in r["gone"]] if all(len(r["gone"]) <= 1 for r in XLOG) else [(-2, -2)]
+        nfat = sum(1 for r in XLOG if r["raised"])
+        ntr = sum(o[1].count(1) for o in ops if o[0] == "svcx") + sum(1 for o in ops if o[0] == "oncex" and o[1] == 1)
+        ctx.case({"xops": ops, "log": log, "queue": q, "dropped": dropped},
+                 nontrivial=nfat > 0 and sum(1 for o in ops if o[0] == "enq") >= 2,
+                 kind="raises=%d,transient=%d" % (min(nfat, 3), min(ntr, 3)))
+        cases.append(("(let s := runx %s in (xlog s, xq s ++ [(-1, -1)] ++ xdropped s))" % c_opsx(ops),
+                      "(%s, %s)" % (c_pkts(log), c_pkts(q + [(-1, -1)] + dropped))))
+        metas.append((ops, log, q))
+        xmetas.append(ops)
 
     def add(ops):
         log, q = run_impl(ops)
@@ -222,6 +338,8 @@ def run(ctx):
         add(ops)
     for ops in rnd:
         add(ops)
+    for ops in xhist:
+        addx(ops)
 
     header = ("From Coq Require Import List ZArith Bool.\nImport ListNotations.\n"
               "Require Import V.C35.Model.\nOpen Scope Z_scope.\n"
@@ -239,7 +357,16 @@ def run(ctx):
     def search():
         # the implementation alone against the property's executable statement
         best = None
+        for ops in xmetas:
+            why = xprop_holds(ops)
+            if why and (best is None or len(ops) < len(best["ops"])):
+                best = {"ops": ops, "why": why, "contradicts": "C35.Props.exception_loses_only_its_packet",
+                        "key": "gram-exception-loses-deferred"}
+        if best:
+            return best
         for ops, log, q in metas:
+            if ops and any(o[0] in ("svcx", "oncex") for o in ops):
+                continue
             why = prop_holds(ops, log, q)
             if why:
                 if best is None or len(ops) < len(best["ops"]):
